@@ -665,10 +665,27 @@ func (o *oracle) busy(sl [2]int) bool {
 	return false
 }
 
+// scopeUsers: in-progress requests whose scope is k
+func (o *oracle) scopeUsers(k int) int {
+	n := 0
+	for _, q := range o.reqs {
+		if q.open && q.scope == k {
+			n++
+		}
+	}
+	return n
+}
+
 func (o *oracle) dedup(r, k int) {
+	if o.scopeUsers(k) > 0 {
+		o.out.Cov("dedup.scope-in-use")
+	} else {
+		o.out.Cov("dedup.scope-new")
+	}
 	q := o.req(r)
 	if q.dirty {
 		o.tainted = true
+		o.out.Cov("dedup.mid-request")
 	}
 	q.scope = k
 	q.dirty = true
@@ -686,7 +703,12 @@ func (o *oracle) ignore(r int, ls []int) {
 	q.dirty = true
 }
 
-func (o *oracle) skip(r int, n int64) { o.req(r).skip = n }
+func (o *oracle) skip(r int, n int64) {
+	o.req(r).skip = n
+	if n < 0 {
+		o.out.Cov("skip.negative")
+	}
+}
 
 func (o *oracle) trav(r, l int, present, sent bool) {
 	q := o.req(r)
@@ -719,8 +741,14 @@ func (o *oracle) trav(r, l int, present, sent bool) {
 		o.tx[sl]++
 	}
 	if present {
+		if q.wb[sl] {
+			o.out.Cov("trav.same-request-again")
+		}
 		q.wb[sl] = true
 	} else {
+		if q.sawMissing {
+			o.out.Cov("trav.missing-again")
+		}
 		q.sawMissing = true
 	}
 }
@@ -732,6 +760,16 @@ func (o *oracle) finish(r int, observed, full bool) {
 		if full != want {
 			o.fail("complete-iff", "request %d reported complete-full=%v but met a missing block since it began=%v", r, full, q.sawMissing)
 		}
+	}
+	switch {
+	case !q.open || (q.scope == 0 && len(q.wb) == 0 && !q.sawMissing && q.travs == 0):
+		o.out.Cov("end.nothing-recorded")
+	case q.scope == 0:
+		o.out.Cov("end.default-scope")
+	case o.scopeUsers(q.scope) > 1:
+		o.out.Cov("end.scope-shared")
+	default:
+		o.out.Cov("end.scope-last-user")
 	}
 	old := q.wb
 	*q = reqSpec{wb: map[[2]int]bool{}}
